@@ -84,7 +84,7 @@ func vfC16Writer(s vfC16Step) string {
 	}
 	f := ""
 	if s.Fault != 0 {
-		f = []string{"", " DROP", " DUP", " INJECTED-DELIVERY-WITH-OFFSET"}[s.Fault]
+		f = []string{"", " DROP", " DUP"}[s.Fault]
 	}
 	return fmt.Sprintf("pub(k%d %s%s)", s.Key, vfTagsStr(s.Tags), f)
 }
@@ -859,10 +859,6 @@ func vfC16GenMap(rt *rapid.T) vfC16Case {
 				nd := rapid.IntRange(1, 4).Draw(rt, "nduring")
 				for q := 0; q < nd; q++ {
 					op := vfC16GenWriter(rt, "d", false)
-					if c.MapMode == 1 && !op.Remove {
-						// streamless: a broker delivery that carries an offset is what lands in the recovery buffer
-						op.Fault = rapid.SampledFrom([]int{0, 3, 3, 3}).Draw(rt, "inject")
-					}
 					s.During = append(s.During, op)
 				}
 			}
@@ -959,9 +955,7 @@ func vfC16RunMap(t *testing.T, cs vfC16Case, out *vfC16Out, isKnown func(string)
 		exists := map[string]bool{}
 		var top uint64
 		curEpoch := ""
-		var injOff uint64 = 1000
 		faults := 0
-		hsActive := -1 // subject index whose handshake is in progress
 		hsStart := 0
 		judgeAll := func() string { return "" }
 		write := func(op vfC16Step) string {
@@ -998,24 +992,6 @@ func vfC16RunMap(t *testing.T, cs vfC16Case, out *vfC16Out, isKnown func(string)
 				rec.ID = len(log) + 1
 				rec.Tags = op.Tags
 				data := []byte(fmt.Sprintf(`{"id":%d}`, rec.ID))
-				if op.Fault == 3 {
-					// a broker delivery carrying an offset on a streamless channel (not stored in the broker state)
-					injOff++
-					log = append(log, rec)
-					byID[rec.ID] = &log[len(log)-1]
-					out.label("streamless_delivery_with_offset_injected")
-					_ = w.node.HandlePublication(ch, &Publication{Offset: injOff, Data: data, Tags: op.Tags, Key: key, Time: time.Now().UnixMilli()},
-						StreamPosition{Offset: injOff}, false, nil)
-					vfSettle()
-					for _, s := range subjects {
-						if s.subscribed {
-							s.count("map_live", rec.Tags)
-						} else if s.idx == hsActive {
-							s.count("map_streamless_buffered", rec.Tags)
-						}
-					}
-					return judgeAll()
-				}
 				nextFault = op.Fault
 				res, err := w.node.MapPublish(ctx, ch, key, MapPublishOptions{Data: data, Tags: op.Tags})
 				nextFault = 0
@@ -1113,18 +1089,6 @@ func vfC16RunMap(t *testing.T, cs vfC16Case, out *vfC16Out, isKnown func(string)
 					s.subscribed, s.pending, s.dead = false, false, true
 				}
 				for _, sp := range vfC16FramePubs(f, ch, s.cmdCh) {
-					if p := sp.Pub; !p.Removed && p.Key == "" && len(p.Data) == 0 && p.Time == -1 {
-						// the hub's placeholder for a publication the filters excluded (offset only, Time -1) reached the wire
-						key := "C16:streamless-buffered-filter-placeholder-delivered-as-publication"
-						msg := fmt.Sprintf("s%d received the placeholder of a filtered publication (offset %d, no key, no data, time -1) in %s (phase %d); frames: %s",
-							s.idx, p.Offset, sp.Where, sp.Phase, vfC16RenderMap(frames))
-						if isKnown(key) {
-							out.known = append(out.known, key)
-							out.knownEx = msg
-							continue
-						}
-						return "[" + key + "] " + msg
-					}
 					rec, m := lookup(sp.Pub)
 					if rec == nil {
 						return fmt.Sprintf("s%d frame %d (%s): %s; frames: %s", s.idx, fi, sp.Where, m, vfC16RenderMap(frames))
@@ -1202,7 +1166,7 @@ func vfC16RunMap(t *testing.T, cs vfC16Case, out *vfC16Out, isKnown func(string)
 			seen := map[*vfC16Rec]bool{}
 			for i := range log {
 				r := &log[i]
-				if (r.Offset > lo && r.Offset <= hi && r.Offset < 1000 && mode.HasStream()) || (from >= 0 && i >= from && r.Fault != 3) {
+				if (r.Offset > lo && r.Offset <= hi && mode.HasStream()) || (from >= 0 && i >= from) {
 					if !seen[r] {
 						seen[r] = true
 						s.count(path, r.Tags)
@@ -1214,8 +1178,7 @@ func vfC16RunMap(t *testing.T, cs vfC16Case, out *vfC16Out, isKnown func(string)
 			if s.conn == nil || s.dead {
 				newConn(s)
 			}
-			hsActive, hsStart = s.idx, len(log)
-			defer func() { hsActive = -1 }()
+			hsStart = len(log)
 			tf := s.cfg.ClientTF.Proto()
 			join := st.Join
 			if !mode.HasStream() || !s.hasPos {
@@ -1370,16 +1333,16 @@ func vfC16RunMap(t *testing.T, cs vfC16Case, out *vfC16Out, isKnown func(string)
 					if m := judgeAll(); m != "" {
 						return fmt.Sprintf("step %d (%s): %s", si, st.str(1), m)
 					}
-					if s.srvRefreshCalls == calls || !s.subscribed {
-						out.label("map_server_side_refresh_not_due")
-						s.newTF = nil
-						continue
-					}
 					invalidated := false
 					for _, f := range s.conn.Frames()[before:] {
 						if p := f.Reply.Push; p != nil && p.Channel == ch && p.Unsubscribe != nil && p.Unsubscribe.Code == UnsubscribeCodeStateInvalidated {
 							invalidated = true
 						}
+					}
+					if s.srvRefreshCalls == calls || (!s.subscribed && !invalidated) {
+						out.label("map_server_side_refresh_not_due")
+						s.newTF = nil
+						continue
 					}
 					if vfC16SemDiff(s.serverTF, st.NewTF) && !invalidated {
 						key := "C16:server-side-sub-refresh-ignores-changed-server-tags-filter"
